@@ -305,15 +305,14 @@ func runSeeded(prop, repo, verif string) map[string]any {
 		ok := true
 		for _, m := range fileRe.FindAllStringSubmatch(string(patch), -1) {
 			rel := m[1]
-			src, err := os.ReadFile(filepath.Join(repo, rel))
-			if err != nil {
-				ok = false
-				break
-			}
 			dst := filepath.Join(tmp, rel)
 			os.MkdirAll(filepath.Dir(dst), 0o755)
-			os.WriteFile(dst, src, 0o644)
-			args = append(args, "--overlay", rel+"="+dst)
+			if src, err := os.ReadFile(filepath.Join(repo, rel)); err == nil {
+				os.WriteFile(dst, src, 0o644)
+			} // else: a file the patch creates (functions moved to a new file of the package)
+			if strings.HasSuffix(rel, ".go") {
+				args = append(args, "--overlay", rel+"="+dst)
+			}
 		}
 		if ok {
 			pc := exec.Command("patch", "-p1", "-s", "-f", "-d", tmp, "-i", filepath.Join(d, "patch.diff"))
@@ -401,15 +400,14 @@ func runRefactorings(prop, repo, verif string) map[string]any {
 		ok := true
 		for _, m := range fileRe.FindAllStringSubmatch(string(patch), -1) {
 			rel := m[1]
-			src, err := os.ReadFile(filepath.Join(repo, rel))
-			if err != nil {
-				ok = false
-				break
-			}
 			dst := filepath.Join(tmp, rel)
 			os.MkdirAll(filepath.Dir(dst), 0o755)
-			os.WriteFile(dst, src, 0o644)
-			args = append(args, "--overlay", rel+"="+dst)
+			if src, err := os.ReadFile(filepath.Join(repo, rel)); err == nil {
+				os.WriteFile(dst, src, 0o644)
+			} // else: a file the patch creates (functions moved to a new file of the package)
+			if strings.HasSuffix(rel, ".go") {
+				args = append(args, "--overlay", rel+"="+dst)
+			}
 		}
 		if ok {
 			pc := exec.Command("patch", "-p1", "-s", "-f", "-d", tmp, "-i", filepath.Join(d, "patch.diff"))
